@@ -379,7 +379,7 @@ def pred_closure_crosses_goroutine(chain):
         if semgen.STEPS[s_][1] == "C":
             made = (d == "go")
         elif made is not None and s_ == "callclo":
-            if made != (d == "go"):
+            if made or d == "go":       # every go-decorated step runs on a goroutine of its own
                 return True
     return False
 
